@@ -473,15 +473,122 @@ fn la_case(
     }
 }
 
+/// C04 on a USED iterator: some tokens are consumed (and peeked), then set_offset moves the
+/// iterator to another character boundary and the rest of the stream is judged by the gate rule
+/// from there ("all scan start offsets including after set_offset").
+fn c04_reset_case(rng: &mut Rng, st: &mut Stats) -> CaseOutcome {
+    use scnr::ScannerModeSwitcher;
+    let mut p = GenParams::default();
+    p.max_nodes = 8;
+    let (cfg, input) = if rng.chance(1, 4) {
+        gen_directed_la(rng)
+    } else {
+        let cfg = gen_la_mode(rng, &p, 1);
+        let res_refs = cfg.all_res();
+        let input = gen_input(rng, &res_refs, &p.letters, 30);
+        (cfg, input)
+    };
+    if !guard_roundtrip(&cfg) || input.is_empty() {
+        return CaseOutcome::Skipped;
+    }
+    let inp = RefInput::new(&input);
+    let consume = rng.below(6);
+    let resets: Vec<usize> = (0..rng.range(1, 3)).map(|_| inp.off[rng.below(inp.len() + 1)]).collect();
+    let peek_first = rng.chance(1, 2);
+    let case = || {
+        let mut c = case_json("tok_gate_reset", &cfg, &input, 0, BuildPath::Uncached);
+        c["consume"] = json!(consume);
+        c["resets"] = json!(resets);
+        c["peek_first"] = json!(peek_first);
+        c
+    };
+    let scanner = match build_with(&cfg, BuildPath::Uncached) {
+        Ok(s) => s,
+        Err(e) => return CaseOutcome::Violated(Violation::new(e, case())),
+    };
+    let r = sut(|| {
+        let mut it = scanner.find_iter(&input);
+        let _ = it.current_mode();
+        if peek_first {
+            let _ = it.peek_n(3);
+        }
+        for _ in 0..consume {
+            if it.next().is_none() {
+                break;
+            }
+        }
+        let mut streams: Vec<(usize, Vec<Tok>)> = Vec::new();
+        for (k, o) in resets.iter().enumerate() {
+            it.set_offset(*o);
+            let mut toks = Vec::new();
+            // all but the last reset are followed by a partial scan only
+            let limit = if k + 1 == resets.len() { usize::MAX } else { 2 };
+            while toks.len() < limit {
+                match it.next() {
+                    Some(m) => toks.push(Tok::from(m)),
+                    None => break,
+                }
+            }
+            streams.push((*o, toks));
+        }
+        streams
+    });
+    let streams = match r {
+        Ok(s) => s,
+        Err(pm) => return CaseOutcome::Violated(Violation::new(format!("panic while scanning: {}", pm), case())),
+    };
+    let pats = &cfg.modes[0].pats;
+    for (k, (o, toks)) in streams.iter().enumerate() {
+        st.count("reset_on_used_iterator_checked");
+        let start = inp.char_index(*o).unwrap();
+        let complete = k + 1 == streams.len();
+        // a partial stream is judged up to its last token only: append nothing, cut the input
+        let r = if complete {
+            check_gate_rule(pats, &inp, toks, start, st)
+        } else {
+            // soundness and completeness up to the end of the last consumed token
+            let end = toks.last().map_or(*o, |t| t.end);
+            let cut = RefInput::new(&input[..end.max(*o)]);
+            // lookaheads may look beyond the cut, so judge on the full input but only the tokens seen
+            let _ = cut;
+            check_gate_prefix(pats, &inp, toks, start, st)
+        };
+        if let Err(e) = r {
+            let mut c = case();
+            c["observed_after_reset_to"] = json!(o);
+            c["observed_tokens"] = toks_json(toks);
+            return CaseOutcome::Violated(Violation::new(format!("after set_offset({}) on a used iterator: {}", o, e), c));
+        }
+    }
+    st.nontrivial(hash_of(&(&cfg, &input, &resets, consume)));
+    CaseOutcome::Ok
+}
+
+/// Gate rule for a stream that was not consumed to the end: every reported token must be
+/// justified and nothing may be skipped before it; nothing is demanded after the last token.
+fn check_gate_prefix(pats: &[RefPattern], inp: &RefInput, toks: &[Tok], start: usize, st: &mut Stats) -> Result<(), String> {
+    if toks.is_empty() {
+        return Ok(());
+    }
+    // judge on a virtual input that ends where the last token ends is not possible (lookaheads
+    // read beyond it), so run the complete rule and ignore a complaint about the unscanned rest
+    match check_gate_rule(pats, inp, toks, start, st) {
+        Err(e) if e.contains("(no further token reported)") => Ok(()),
+        other => other,
+    }
+}
+
 pub fn c04(tier: Tier) -> i32 {
     let ctx = Ctx::new("C04", tier, "exploration");
     let n = ctx.scale(40_000, 3_000_000);
     let mut res = run_cases(&ctx, 1, n, |rng, _i, st| {
         la_case("tok_gate", TokOracle::Gate, rng, st, true, 1)
     });
+    let n2 = ctx.scale(15_000, 1_000_000);
+    res.merge(run_cases(&ctx, 2, n2, |rng, _i, st| c04_reset_case(rng, st)));
     res.merge(corpus_lookahead_cases(&ctx, TokOracle::Gate));
     let report = Report::new(
-        "random single-mode configurations mixing patterns with positive, negative and no lookahead (lookahead patterns never nullable), inputs of 0-40 chars from the pattern languages plus noise, scan start offsets on every kind of character boundary via with_offset; plus the directed family (candidate A shorter than B with A's lookahead longer/equal/shorter, failing lookaheads) and the repository's lookahead fixtures. Oracle: step-wise soundness of every reported token (pattern matches its text and its lookahead condition holds at its end) and completeness at every skipped position. Non-trivial: at least one lookahead evaluation took place; distinct by hash of (configuration, input, offset).",
+        "random single-mode configurations mixing patterns with positive, negative and no lookahead (lookahead patterns never nullable), inputs of 0-40 chars from the pattern languages plus noise, scan start offsets on every kind of character boundary via with_offset on a fresh iterator and (stream 2) via set_offset on a used iterator that has already peeked and consumed tokens; plus the directed family (candidate A shorter than B with A's lookahead longer/equal/shorter, failing lookaheads) and the repository's lookahead fixtures. Oracle: step-wise soundness of every reported token (pattern matches its text and its lookahead condition holds at its end) and completeness at every skipped position. Non-trivial: at least one lookahead evaluation took place; distinct by hash of (configuration, input, offset).",
     )
     .floor("la_pos_satisfied", 2000)
     .floor("la_pos_failed", 2000)
@@ -489,6 +596,7 @@ pub fn c04(tier: Tier) -> i32 {
     .floor("la_neg_failed", 2000)
     .floor("la_at_end_of_input", 2000)
     .floor("scan_from_offset_gt0", 5000)
+    .floor("reset_on_used_iterator_checked", 10_000)
     .floor("token_justified", 20_000)
     .assume("lengths are byte lengths; lookahead patterns are non-nullable; within one mode a token type carries at most one lookahead");
     finish(&ctx, res, report)
